@@ -9,7 +9,7 @@
       PLoad      targetLoader.LoadTarget        (unknown label -> PFinish)      hook run.loaded
       PExit1     gate.exit() in EvaluateTargets                                 hook gate.exit
       PStart i   getTarget + start of labels[i] (test-and-set Idle->Running, go run)   start.run / start.noop
-      PPublish   root.waiting.Swap(&targets)                                    publish.pre/post
+      PPublish   root.waiting.Swap(&targets); the walk's visited set starts empty publish.pre/post
       PWalk d fr dep.waiting.Load() for the next not-yet-seen dep d; fr = the remaining DFS frames
                  (one frame of remaining siblings per active checkDeps call)    walk.pre / walk.load
       PCycle     check reached dep == root: every result of the call := Cyclic  walk.cycle
